@@ -1,11 +1,10 @@
 (* Model of json/scanner.go + json/number.go + bytes.ParseUint/ParseInt (after the fix: commits).
    Bytes are N, Go ints are Z (with the int64 wrap written out where sums can overflow). No proofs. *)
 From Coq Require Import List ZArith NArith Bool.
-From JS Require Import Base.Res.
+From JS Require Import Base.Res Spec.Decimal.
 Import ListNotations.
 Local Open Scope Z_scope.
 
-Definition bytes := list N.
 
 Inductive ncls := CMinus | CPlus | CZero | CNz | CDot | CE | COther.
 Definition ncls_of (c : N) : ncls :=
@@ -51,7 +50,6 @@ Fixpoint nrun (s : nsc) (i : Z) (l : bytes) : option nsc :=
 (* bytes.ParseUint / ParseInt *)
 Definition max_uint : Z := 2 ^ 64 - 1.
 Definition max_int : Z := 2 ^ 63 - 1.
-Definition is_digit (c : N) : bool := (N.leb 48 c && N.leb c 57)%bool.
 Fixpoint parse_uint_go (u : Z) (l : bytes) : res Z :=
   match l with
   | [] => Ok u
@@ -109,7 +107,6 @@ Fixpoint trim_trail_rev (e : nat) (l : bytes) : nat * bytes :=
             | [] => (e, l)
             end
   end.
-Definition len (l : bytes) : Z := Z.of_nat (length l).
 
 Definition normalise (neg : bool) (nat : bytes) (exp : Z) : res number :=
   (* trimLeadingZerosInTheIntegerPart *)
@@ -157,7 +154,6 @@ Definition cmp_int (x y : bytes) : Z :=
   let xl := len x in let yl := len y in
   if negb (xl =? yl) || (xl =? 0) then (if xl <? yl then -1 else if xl >? yl then 1 else 0)
   else cmp_lex x y.
-Definition dig (c : N) : Z := Z.of_N c - 48.
 Fixpoint fra_vs_zero (x : bytes) : Z :=
   match x with
   | [] => 0
